@@ -1,10 +1,10 @@
 #!/usr/bin/env python3
 """seedrescan.py <seeded dir name> <checks,comma>: re-run quick checks against a filed seeded change and update meta.json."""
-import sys, json, subprocess, re
+import sys, json, subprocess, re, os
 d, checks = sys.argv[1], sys.argv[2]
 out = f'/verif/seeded/{d}'
 meta = json.load(open(f'{out}/meta.json'))
-r = subprocess.run(['python3', '/verif/tools/mutrun.py', '--scratch', '/root/scratch/mutseed', f'{out}/patch.diff:{checks}'], capture_output=True, text=True, errors='replace')
+r = subprocess.run(['python3', '/verif/tools/mutrun.py', '--scratch', '/root/scratch/mutseed' + os.environ.get('SV_LANE', ''), f'{out}/patch.diff:{checks}'], capture_output=True, text=True, errors='replace')
 det = meta.get('detected_by', {})
 for line in r.stdout.splitlines():
     m = re.search(r' (C\d\d) rc=(\d+) viol=(\d+) (\d+)s ?(.*)', line)
